@@ -53,7 +53,9 @@ class G(object):
         n = r.choice([1, 1, 2, 3])
         words = [self.mark() for _ in range(n)]
         node = {'t': 'text', 'words': words}
-        if self.o['probes'] and r.random() < 0.3:
+        if self.o.get('adversarial') and r.random() < self.o['adversarial']:
+            node['adv'] = r.randrange(len(ADV_POOL))
+        elif self.o['probes'] and r.random() < 0.3:
             node['probe'] = r.choice(['quote', 'emdash', 'endash'])
             if node['probe'] != 'quote' and len(words) < 2:
                 words.append(self.mark())
@@ -86,6 +88,13 @@ class G(object):
             else:
                 out.append(self.text())
         return out
+
+    def no_bracket(self, items):
+        """text that goes into an optional argument must not contain a closing bracket"""
+        for n in items:
+            if n.get('t') == 'text' and 'adv' in n and ']' in ADV_POOL[n['adv']][0]:
+                n['adv'] = 0
+        return items
 
     # -- blocks ----------------------------------------------------------------
     def para(self, depth):
@@ -134,9 +143,9 @@ class G(object):
         for _ in range(r.randint(1, 4)):
             it = {'t': 'item', 'c': self.blocks(depth, r.randint(1, 2), in_list=True)}
             if kind == 'description':
-                it['term'] = self.inlines(0, False, 1)
+                it['term'] = self.no_bracket(self.inlines(0, False, 1))
             elif r.random() < 0.08:
-                it['term'] = self.inlines(0, False, 1)      # \item[opt]
+                it['term'] = self.no_bracket(self.inlines(0, False, 1))      # \item[opt]
             if self.o['labels'] and kind == 'enumerate' and 'term' not in it and r.random() < 0.2:
                 it['label'] = self.newlabel('it')
             items.append(it)
@@ -225,7 +234,7 @@ class G(object):
         self.used_theorems.add(env)
         node = {'t': 'theorem', 'env': env, 'c': self.blocks(depth, r.randint(1, 2), in_float=True), 'title': None}
         if r.random() < 0.3:
-            node['title'] = self.inlines(0, False, 1, False, False)
+            node['title'] = self.no_bracket(self.inlines(0, False, 1, False, False))
         if self.o['labels'] and r.random() < 0.4:
             node['label'] = self.newlabel('thm')
         return node
@@ -314,6 +323,22 @@ def gen(r, **opts):
 # ---------------------------------------------------------------------------
 # printing
 
+# adversarial text leaves for C12: (LaTeX source, characters the reader must see), M = the marker word
+ADV_POOL = [
+    ('M<b>', 'M<b>'), ('</p>M', '</p>M'), ('M\\&amp;', 'M&amp;'), ('\\&lt;M', '&lt;M'), ('M\\&\\#60;', 'M&#60;'),
+    ('<script>M</script>', '<script>M</script>'), ('M" onx="', 'M" onx="'), ("'M'", '\u2019M\u2019'), ('M\\&lt-width;', 'M&lt-width;'),
+    ('<!--M', '<!\u2013M'), (']]>M', ']]>M'), ('M\u00e9\u03bb\u2014\u00df', 'M\u00e9\u03bb\u2014\u00df'), ('M<img src=x onerror=alert(1)>', 'M<img src=x onerror=alert(1)>'),
+    ('M\\&\\#x3c;b\\&\\#x3e;', 'M&#x3c;b&#x3e;'), ('M>\\&<', 'M>&<'), ('M\\&quot;', 'M&quot;'), ('<a href="x">M</a>', '<a href="x">M</a>'),
+]
+ADV_ON = [True]
+
+
+def adv_expected(n):
+    """characters of an adversarial leaf as they must be displayed (all its words)"""
+    src, exp = ADV_POOL[n['adv']]
+    return ' '.join([exp.replace('M', n['words'][0])] + n['words'][1:])
+
+
 def p_inlines(items):
     out = []
     for n in items:
@@ -321,7 +346,9 @@ def p_inlines(items):
         if t == 'text':
             w = n['words']
             pr = n.get('probe')
-            if pr == 'quote':
+            if 'adv' in n and ADV_ON[0]:
+                out.append(' '.join([ADV_POOL[n['adv']][0].replace('M', w[0])] + w[1:]))
+            elif pr == 'quote':
                 out.append('``' + ' '.join(w) + "''")
             elif pr == 'emdash':
                 out.append(w[0] + '---' + ' '.join(w[1:]))
